@@ -2098,7 +2098,8 @@ def list_packages_model(repo):
         itl.sys_path = ['<P1>']
         itl.sys_modules = {'pkg.loaded': 1, 'pkg.loaded.deep': 1, 'pkgother.x': 1, 'other': 1, 'pkg': 1}
         itl.fs_dirs = {'<S1>/pkg': ['a.py', '__init__.py', 'sub', 'data', 'c.txt', 'b.so', 'a.so', 'speed.cpython-312-x86_64-linux-gnu.so',
-                                    'stable.abi3.so', 'old.pyc'], '<P1>/pkg': ['z.py'],
+                                    'stable.abi3.so', 'old.pyc', 'notes.txt.py', '_sysconfigdata__linux_x86_64-linux-gnu.py',
+                                    'my-script.py', '3rd.py', '.hidden.py'], '<P1>/pkg': ['z.py'],
                        '<S1>': ['top.py', 'pkg'], '<S2>': [], '<P1>': ['pkg', 'lib.so']}
         itl.fs = {'<S1>/pkg/sub/__init__.py', '<S1>/pkg/__init__.py', '<P1>/pkg/__init__.py'}
         itl.reset_path([])
@@ -2123,7 +2124,8 @@ def list_packages_model(repo):
                 bad = sorted(x for x in (got or ()) if not (isinstance(x, str) and x.isidentifier()))
                 out.append(('lp-ident', 'list_packages(%r) proposes identifiers [%s]' % (root, order), got is not None and not bad,
                             'module names proposed on an import line must be identifiers: list_packages(%r) gives %s on a directory '
-                            'holding a.py, b.so, speed.cpython-312-x86_64-linux-gnu.so, stable.abi3.so, old.pyc' % (root, exc or bad),
+                            'holding a.py, b.so, speed.cpython-312-x86_64-linux-gnu.so, stable.abi3.so, old.pyc and files no import statement can name '
+                            '(notes.txt.py, _sysconfigdata__linux_x86_64-linux-gnu.py, my-script.py, 3rd.py)' % (root, exc or bad),
                             'list_packages(%r) gives identifiers' % root))
         return out
     return repo.memo('list-packages-model', build)
